@@ -57,7 +57,38 @@ let rec run_case (kind : string) (body : sexp list) : string * string =
       (* (timed FORM OP (labels ...)) *)
       let o = top_of (List.nth body 1) in
       let ls = List.map tlab_of (args (List.nth body 2)) in
-      (show_touts (run_timed o ls), "UNSPECIFIED")
+      (* label sequences of the "executor runs as the timers fall due" shape have an exact specification *)
+      let spec =
+        let rec find n = if n > 12 then "UNSPECIFIED" else
+          (match prompt_case o (nat_of_int n) with
+           | Some (pl, pt) when pl = ls -> show_touts pt
+           | _ -> find (n + 1)) in
+        find 1 in
+      (show_touts (run_timed o ls), spec)
+  | "async" ->
+      let k = akind_of (atom (List.nth body 0)) in
+      let script = List.map presult_of (args (List.nth body 1)) in
+      let ls = List.map alab_of (args (List.nth body 2)) in
+      let m = run_async k script ls in
+      (* specification: with no unsubscribe, the deliveries are a prefix of what the source yields,
+         all of it once every pending poll has been consumed *)
+      let polls = List.length (List.filter (fun l -> l = APoll) ls) in
+      let no_unsub = not (List.mem AUnsub ls) in
+      let spec =
+        if no_unsub && polls > int_of_nat (pendings script) && (k = AStream || k = AStreamResult)
+        then
+          (* interleave the is_closed answers as the model gives them; compare deliveries only *)
+          "DELIVERS " ^ show_trace (yields k script)
+        else "UNSPECIFIED" in
+      let model_line = show_aouts m in
+      (model_line,
+       if spec = "UNSPECIFIED" then spec
+       else if "DELIVERS " ^ show_trace (List.concat_map (function AOut e -> [e] | _ -> []) m) = spec then model_line
+       else "SPEC-DIFFERS " ^ spec)
+  | "atform" ->
+      let off = zarg (List.nth body 1) in
+      let r = "(req " ^ string_of_int (int_of_z (remaining off Z0)) ^ ")" in
+      (r, r)
   | k -> failwith ("unknown case kind " ^ k)
 
 let gev_of (s : sexp) : gev =
@@ -124,9 +155,14 @@ let oracle (kind : string) (body : sexp list) (impl : string) : string option =
         | List [Atom "m"; j] -> TMark (narg j)
         | _ -> failwith "bad tout" in
       let out = (match parse ("(" ^ impl ^ ")") with List l -> List.map tout_of l | _ -> []) in
-      (match o with
-       | TRaw -> if raw_ok ls out then Some "ok" else Some "reject:C19 (a task ran twice, early, out of sequence, after its handle was unsubscribed, or a handle reported closed too early)"
-       | _ -> None)
+      if timed_ok o ls out then Some "ok"
+      else Some (match o with
+                 | TRaw -> "reject:C19 (a task ran twice, early, out of sequence, after its handle was unsubscribed, or a handle reported closed too early)"
+                 | TDelay _ | TObserveOn | TDelaySubscription _ | TSubscribeOn ->
+                     "reject:C07/C02 (a notification that is not the polled task's own, delivered twice, earlier than the delay, after a terminal or after unsubscribe)"
+                 | TInterval _ | TIntervalAt _ | TTimer _ ->
+                     "reject:C08/C02 (not the consecutive integers / the single item, too early, or after unsubscribe)"
+                 | _ -> "reject:C09/C02 (an item that is not an input item in input order exactly once, an empty or oversized buffer, lost items on completion, or a delivery after a terminal or after unsubscribe)")
   | _ -> None
 
 let () =
